@@ -694,6 +694,119 @@ pub const C19: Spec = Spec {
 };
 
 // ---------------------------------------------------------------------------------------------------------------------
+// C08
+
+fn c08_cfg(t: Tier) -> GenCfg {
+  let mut c = bu_cfg(t);
+  c.bottom_up_weight = 3;
+  c.multi_checker_share = 2;
+  c
+}
+
+fn dump_opts() -> Opts { Opts { composite: false, dump: true } }
+
+type EdgeText = (String, String, String, String);
+
+fn dep_text(d: &crate::model::Dep) -> EdgeText {
+  use crate::interp::{ochk_text, ostamp_text, rchk_text, rstamp_text};
+  use crate::model::Dep;
+  match d {
+    Dep::Require { dst, chk, out } => ("require".into(), format!("T{}", dst), ochk_text(*chk), ostamp_text(*chk, out)),
+    Dep::Read { r, chk, faulty, seen } => ("read".into(), format!("r{}", r), rchk_text(*chk, *faulty), rstamp_text(*chk, *seen)),
+    Dep::Write { r, chk, faulty, val, .. } => ("write".into(), format!("r{}", r), rchk_text(*chk, *faulty), rstamp_text(*chk, *val)),
+  }
+}
+
+fn c08_judge(case: &Case, run: &Run, an: &Analysis, stats: &mut Stats) -> CheckResult {
+  use crate::model::{DepTarget, Shadow};
+  let mut nontrivial = false;
+  for b in &an.builds { if b.facts.dropped_require && b.facts.added_require { nontrivial = true; } }
+  if nontrivial { stats.nontrivial(fingerprint(case)); sample(case, stats); }
+  let mut sh = Shadow::default();
+  let mut pos = 0usize;
+  let mut any_multi = false;
+  for (si, sess) in run.sessions.iter().enumerate() {
+    let Some(last) = sess.builds.last() else { continue; };
+    for l in &run.log[pos..last.log.end] { sh.feed(l); }
+    pos = last.log.end;
+    if sess.builds.iter().any(|b| matches!(b.result, engine::BuildResult::Panic(_))) { return Ok(()); }
+    for (t, e) in sh.last.iter() {
+      if !e.complete { continue; }
+      let key = format!("T{}", t);
+      let Some(node) = sess.dump_after.iter().find(|n| n.is_task && n.key == key) else {
+        return Err(Failure::new(format!("[c08-dump] after session {}: T{} has executed but the store has no node for it", si, t)));
+      };
+      let want_out = e.out.map(|o| format!("{:?}", o));
+      if node.output != want_out {
+        return Err(Failure::new(format!("[c08-dump] after session {}: store caches output {:?} for T{}, its last execution returned {:?}", si, node.output, t, want_out)));
+      }
+      // Expected: every distinct (target, checker) of the last execution, in order of first occurrence.
+      let mut seen: Vec<(DepTarget, String)> = vec![];
+      let mut want: Vec<EdgeText> = vec![];
+      for d in &e.ops {
+        let tx = dep_text(d);
+        let k = (d.target(), tx.2.clone());
+        if !seen.contains(&k) { seen.push(k); want.push(tx); }
+      }
+      let got: Vec<EdgeText> = node.edges.iter().map(|x| (x.kind.to_string(), x.target.clone(), x.checker.clone(), x.stamp.clone())).collect();
+      if got != want {
+        let multi = e.multi_checker_targets();
+        let msg = format!("[c08-dump] after session {}: store holds {:?} for T{}, its last execution created {:?}", si, got, t, want);
+        if !multi.is_empty() {
+          any_multi = true;
+          let name = |d: &DepTarget| match d { DepTarget::Task(x) => format!("T{}", x), DepTarget::Res(x) => format!("r{}", x) };
+          let names: Vec<String> = multi.iter().map(name).collect();
+          let strip = |v: &Vec<EdgeText>| -> Vec<EdgeText> { v.iter().filter(|x| !names.contains(&x.1)).cloned().collect() };
+          if strip(&got) == strip(&want) {
+            // Which target differs first?
+            let first = multi.iter().find(|m| { let n = name(m); got.iter().filter(|x| x.1 == n).collect::<Vec<_>>() != want.iter().filter(|x| x.1 == n).collect::<Vec<_>>() });
+            return match first {
+              Some(DepTarget::Task(_)) => { stats.class("c08_f1_two_checkers_on_one_required_task"); Err(Failure::with_sig(msg, "C08-F1/require-two-checkers-last-wins")) }
+              Some(DepTarget::Res(_)) => { stats.class("c08_f2_two_checkers_on_one_resource"); Err(Failure::with_sig(msg, "C08-F2/resource-two-checkers-first-wins")) }
+              None => Err(Failure::new(msg)),
+            };
+          }
+        }
+        return Err(Failure::new(msg));
+      }
+    }
+    // Resource nodes: incoming edges come exactly from the tasks that recorded a dependency on the resource.
+    for n in sess.dump_after.iter().filter(|n| !n.is_task) {
+      let Some(r) = n.key.strip_prefix('r').and_then(|x| x.parse::<u8>().ok()) else { continue; };
+      let mut want: Vec<String> = sh.last.iter().filter(|(_, e)| e.ops.iter().any(|d| d.target() == DepTarget::Res(r))).map(|(t, _)| format!("T{}", t)).collect();
+      let mut got = n.incoming.clone();
+      want.sort(); got.sort(); got.dedup();
+      if got != want {
+        return Err(Failure::new(format!("[c08-dump] after session {}: r{} has incoming dependencies from {:?}, the tasks whose last execution used it are {:?}", si, r, got, want)));
+      }
+    }
+    if sess.dump_after.iter().any(|n| n.edges.iter().any(|e| e.kind == "reserved")) {
+      return Err(Failure::new(format!("[c08-dump] after session {}: a reserved require dependency is left in the store", si)));
+    }
+  }
+  let multi_case = any_multi || sh.last.values().any(|e| !e.multi_checker_targets().is_empty());
+  if multi_case { stats.class("case_with_two_checkers_on_one_target"); return Ok(()); }
+  // Behavioural consequences (event level): nothing is validated or scheduled through a dependency the task no longer
+  // has, and every dependency it has is.
+  fail_on(an, &["I3-order", "bu-extra-check", "bu-missed-check", "stamp", "incomplete-validation", "panic-internal"])
+}
+
+pub const C08: Spec = Spec {
+  prop: "C08",
+  level: "exploration",
+  rule: "generated programs whose tasks change which tasks and resources they use with resource values x histories flipping those values (top-down and bottom-up); after every session the read-only store dump (hook) must equal, for every executed task, the dependencies its last execution created according to the task-side log: kind, target, checker text, stamp text, in creation order, plus cached output; resource nodes have incoming edges exactly from their current users; no reserved edge remains; event level: nothing validated/scheduled through a dropped dependency and every recorded dependency checked. 20% of cases repeat an access with a different checker (recorded findings C08-F1/F2). Non-trivial = a task re-executed with requires both dropped and added; distinct by case hash",
+  cfg: c08_cfg,
+  transform: identity,
+  judge: c08_judge,
+  opts: dump_opts,
+  quick: (8, 15000),
+  thorough: (16, 20000),
+  extra: None,
+  strategy: None,
+  assumptions: &["Debug text of checkers and stamps identifies them (true for the harness's and pie's built-in checkers)", "hook: Pie::verif_dump (feature gohla_pie_verif), read-only"],
+};
+
+// ---------------------------------------------------------------------------------------------------------------------
 // Runner shared by all specs
 
 pub fn spec_strategy(spec: &Spec, cfg: GenCfg) -> proptest::strategy::BoxedStrategy<Case> {
@@ -707,9 +820,11 @@ pub fn spec_of(prop: &str) -> Option<&'static Spec> {
     "C02" => Some(&C02),
     "C03" => Some(&C03),
     "C04" => Some(&C04),
+    "C08" => Some(&C08),
     "C09" => Some(&C09),
     "C16" => Some(&C16),
     "C19" => Some(&C19),
+    "C20" => Some(&super::roles::C20),
     "C05" => Some(&super::inject::C05),
     "C06" => Some(&super::inject::C06),
     "C07" => Some(&super::inject::C07),
@@ -722,6 +837,7 @@ pub fn spec_of(prop: &str) -> Option<&'static Spec> {
 pub fn replay(prop: &str, _label: &str, path: &Path) -> Result<CheckResult, String> {
   let spec = spec_of(prop).ok_or_else(|| format!("no spec for {}", prop))?;
   let (_, _, case): (_, _, Case) = driver::load_replay(path)?;
+  if prop == "C20" && _label == "roles" { return Ok(super::roles::replay_roles(&case)); }
   Ok(driver::guarded(|| check(spec, &case, &mut Stats::dummy())))
 }
 
